@@ -804,6 +804,9 @@ func qualify(pkg, key string) string {
 	if strings.HasPrefix(key, "lib.") {
 		return key
 	}
+	if strings.HasPrefix(key, "iface.") {
+		return key[len("iface."):] // interface method of another package: <pkg>.<Interface>.<Method>
+	}
 	// keys inside a package file are written without the package prefix
 	if strings.HasPrefix(key, pkg+".") {
 		return key
